@@ -39,6 +39,15 @@ fn value_matches(pat: &Value, actual: Option<&str>) -> bool {
         Value::Array(xs) => xs.iter().any(|x| value_matches(x, actual)),
         Value::Bool(b) => actual == Some(if *b { "true" } else { "false" }),
         Value::Number(n) => actual == Some(n.to_string().as_str()),
+        // {"contains": "x"}: substring; {"not_contains": "x"}
+        Value::Object(m) => {
+            let a = actual.unwrap_or("");
+            m.iter().all(|(k, v)| match (k.as_str(), v.as_str()) {
+                ("contains", Some(x)) => a.contains(x),
+                ("not_contains", Some(x)) => !a.contains(x),
+                _ => false,
+            })
+        }
         _ => false,
     }
 }
